@@ -12,3 +12,9 @@ Definition tname_of (n : str) : tname :=
 Definition ref_syntax_ok (v : str) : bool :=
   if (Nat.leb (length v) 2) || negb (contains [36;123] v) then true
   else ref_check false (map (fun t => tname_of (fst t)) (tokens v)).
+
+(* expression.is_pyxform_reference: value and len(value) > 3 and RE_ONLY_PYXFORM_REF.match(value), the pattern being
+   ^\$\{(last-saved#)?ncname\}$  — `$` also matches before one trailing newline *)
+Definition is_pyxform_reference (v : str) : bool :=
+  Nat.ltb 3 (length v) && match r_pyxform_ref v with Some (_, []) => true | Some (_, [10]) => true | _ => false end.
+
